@@ -271,7 +271,7 @@ DEC_STRS = ['0.0', '1.0', '-1.0', '1.5', '1.2345', '-1.2345', '1.23456', '922337
 DUR_STRS = ['0ms', '1ms', '1s', '1m', '1h', '1d', '1d2h3m4s5ms', '-1d2h3m4s5ms', '1h1d', '1d1d', '1', 'd', '', '-', '-1',
             '9223372036854775807ms', '9223372036854775808ms', '-9223372036854775808ms', '-9223372036854775809ms',
             '106751991167d7h12m55s807ms', '106751991167d7h12m55s808ms', '-106751991167d7h12m55s808ms', '1ms1s', '1m1ms',
-            '001d', '1 d', '1D', '1dd', '1d2', '+1d', '99999999999999999999d', '1s999ms', '60s', '24h', '1m2s3']
+            '001d', '1 d', '1D', '1dd', '1d2', '+1d', '99999999999999999999d', '1s999ms', '60s', '24h', '1m2s3', '1h-2m', '1h+2m', '-+1h', '--1h', '1d-0h', ' 1h', '1h ']
 DT_STRS = ['2024-01-01', '2024-02-29', '2023-02-29', '1970-01-01T00:00:00Z', '1969-12-31T23:59:59.999Z', '2024-01-01T12:34:56.789+0130',
            '2024-01-01T12:34:56-2359', '2024-01-01T12:34:56', '2024-13-01', '2024-00-10', '2024-01-32', '2024-01-00', '0000-01-01',
            '9999-12-31T23:59:59.999Z', '+000010000-01-01', '-000000001-12-31', '+292278994-08-17T07:12:55.807Z',
@@ -285,7 +285,10 @@ DT_STRS = ['2024-01-01', '2024-02-29', '2023-02-29', '1970-01-01T00:00:00Z', '19
            '-292275055-05-16', '-292275055-05-17', '-292275055-05-18', '-292275055-05-15', '-292275055-01-01', '-292275055-12-31', '-292275056-12-31',
            '-292275054-01-01', '+292278994-08-17T00:00:00Z', '+292278994-08-17T07:12:55.807+0001', '+292278994-08-17T07:12:55.807-0001',
            '+292278994-08-18T00:00:00+2359', '-292275055-05-16T00:00:00Z', '-292275055-05-16T16:47:04.192-0001', '-292275055-05-15T23:59:59-2359',
-           '+292278994-09-01', '+292278994-10-15T12:00:00Z', '-292275055-03-01', '-292275055-02-28T12:00:00Z', '2000-02-29', '2024-04-31', '', 'T', '2024-01-01T', '2024-01-01T00:00:00.000+0000x']
+           '+292278994-09-01', '+292278994-10-15T12:00:00Z', '-292275055-03-01', '-292275055-02-28T12:00:00Z', '2000-02-29', '2024-04-31', '', 'T', '2024-01-01T', '2024-01-01T00:00:00.000+0000x',
+           # a sign where a field's first digit belongs (a lenient integer parser accepts these)
+           '2024-+1-15', '2024-01-+5', '2024-01-15T+7:30:00Z', '2024-01-15T07:+5:00Z', '2024-01-15T07:30:-0Z', '2024-01-15T07:30:+1Z', '2024-01-15T07:30:00.+12Z', '2024-01-15T07:30:00.-00Z',
+           '++00002024-01-15', '+-0002024-01-15', '2024-01-15T07:30:00+-100', '2024-01-15T07:30:00++100', '-0-01-01', '2024--1-15', ' 2024-01-15', '2024-01-15 ']
 IP_STRS = ['127.0.0.1', '127.0.0.1/8', '10.0.0.0/24', '224.0.0.1', '224.0.0.0/4', '224.0.0.0/3', '0.0.0.0/0', '255.255.255.255',
            '1.2.3', '1.2.3.4.5', '01.2.3.4', '256.1.1.1', '1.2.3.4/33', '1.2.3.4/', '1.2.3.4/08', '1.2.3.4/+8', '::1', '::', '::1/128',
            'ff00::/8', 'ff00::1', '2001:db8::1', '2001:db8::/32', '1:2:3:4:5:6:7:8', '1:2:3:4:5:6:7:8:9', '1:2:3:4:5:6:7', '::1:2:3:4:5:6:7:8',
